@@ -1,0 +1,21 @@
+//go:build verif
+
+package set
+
+// Contracts for the set plugin, read by /verif's gvc (comment-only file).
+
+//@ func (g *gen) Add(name string, typs []types.Type) (r string, err error)
+//@ param typs: len=0,1,2,3
+//@ param name: classes=Ident
+
+//@ func (g *gen) Generate(typs []types.Type) (err error)
+//@ param typs: len=1
+
+//@ func (g *gen) genFuncFor(typ *types.Slice) (err error)
+//@ emits: decls
+//@ o-fork: comparable elem(typ)
+//@ serves: set len=1 typ=typs[0]
+//@ o-sig: (list []$elem(typ)) (r map[$elem(typ)]struct{})
+//@ o-pure
+//@ o-ensures: [set] r != nil && forall k val :: (k in r) <==> exists j int :: 0 <= j && j < len(list) && list[j] == k
+//@ o-loop: 1: invariant set != nil && forall k val :: (k in set) <==> exists j int :: 0 <= j && j < $i && list[j] == k
